@@ -260,17 +260,52 @@ Definition d_request (x : xval) : option request :=
   | _ => None
   end.
 
-(** component input: (L init (L request...)); init 0 = [Extensions::empty()], 1 = [Extensions::new()].
+(** the decidable form of [desc] (checked on a start state that comes from the implementation) *)
+Fixpoint desc_b {A} (l : list (Z * A)) : bool :=
+  match l with
+  | [] => true
+  | (q, _) :: r => forallb (fun e => (fst e <? q)%Z) r && desc_b r
+  end.
+Fixpoint keys_sorted_b (m : list bytes) : bool :=
+  match m with
+  | [] => true
+  | k :: r => forallb (fun x => match bcmp k x with Lt => true | _ => false end) r && keys_sorted_b r
+  end.
+Definition d_entry (x : xval) : option (Z * bytes) :=
+  match x with
+  | XL [p; XB n] => match d_Z p with Some p => Some (p, n) | None => None end
+  | _ => None
+  end.
+(** an explicit start state (L (L listing x5) (L keys x3)): accepted when every vector is strictly
+    descending and every key list strictly ascending *)
+Definition d_extensions (x : xval) : option extensions :=
+  match x with
+  | XL [ls; ms] =>
+      match d_list (d_list d_entry) ls, d_list (d_list d_B) ms with
+      | Some ls, Some ms =>
+          if Nat.eqb (length ls) 5 && Nat.eqb (length ms) 3 && forallb desc_b ls && forallb keys_sorted_b ms
+          then Some {| e_lists := ls; e_maps := ms |} else None
+      | _, _ => None
+      end
+  | _ => None
+  end.
+
+(** component input: (L init (L request...)); init (N 0) = [Extensions::empty()], (N 1) = the recorded
+    [Extensions::new()] of kvarn 0.6.3, (L lists maps) = an explicit start state (the harness checks that it is
+    what the real [Extensions::new()] lists, so that the model does not pin the built-in extensions).
     output: (L (L view...) final) *)
 Definition run_registry_with (run : extensions -> list request -> list step_view * extensions) (x : xval) : xval :=
   match x with
-  | XL [XN init; rs] =>
-      match d_list d_request rs with
-      | Some rs =>
-          let e0 := if N.eqb init 0 then extensions_empty else extensions_new in
+  | XL [init; rs] =>
+      match d_list d_request rs, (match init with
+                                  | XN 0 => Some extensions_empty
+                                  | XN 1 => Some extensions_new
+                                  | _ => d_extensions init
+                                  end) with
+      | Some rs, Some e0 =>
           let '(vs, ef) := run e0 rs in
           XL [x_list x_view vs; x_extensions ef]
-      | None => bad_input
+      | _, _ => bad_input
       end
   | _ => bad_input
   end.
